@@ -900,7 +900,11 @@ impl ProtocolState {
                     }
                     MqttPacket::Publish(publish) => {
                         if publish.duplicate {
-                            self.resubmit_operation_queue.push_front(id);
+                            // a retransmitted qos2 publish whose pubrel is being written is still in the
+                            // unacked publish table, which re-queues it below; don't queue it twice
+                            if !self.pending_publish_operations.contains_key(&publish.packet_id) {
+                                self.resubmit_operation_queue.push_front(id);
+                            }
                         } else if publish.qos == QualityOfService::ExactlyOnce && operation.qos2_pubrel.is_some() {
                             self.high_priority_operation_queue.push_front(id);
                         } else if does_packet_pass_offline_queue_policy(&operation.packet, &self.config.offline_queue_policy) {
